@@ -38,3 +38,9 @@ pub fn proper(db: &mut Db, k: u8) -> Result<(), String> {
     let _ = db.flush().map_err(|e| e + "!")?;
     Ok(())
 }
+
+/// C18 fixture: a memo cache behind interior mutability
+pub struct Memo {
+    pub cache: std::cell::RefCell<Vec<u8>>,
+    pub hits: std::sync::atomic::AtomicUsize,
+}
